@@ -167,15 +167,14 @@ impl Serializer {
             self.writer.indent();
         } else {
             self.writer.write_literal(" ");
+            self.writer.indent();
         }
 
         for element in &pattern.elements {
             self.serialize_element(element);
         }
 
-        if start_on_newline {
-            self.writer.dedent();
-        }
+        self.writer.dedent();
     }
 
     fn serialize_attributes<'s, S: Slice<'s>>(&mut self, attrs: &[Attribute<S>]) {
@@ -368,7 +367,7 @@ impl<'s, S: Slice<'s>> Pattern<S> {
 
     fn has_leading_text_dot(&self) -> bool {
         if let Some(PatternElement::TextElement { value }) = self.elements.first() {
-            value.as_ref().starts_with('.')
+            value.as_ref().starts_with(['.', '[', '*'])
         } else {
             false
         }
